@@ -276,6 +276,18 @@ func render(docs []Doc, format string) []byte {
 			}
 			b, _ := yaml.Marshal(d.spec())
 			sb.Write(b)
+		case "yaml-json-first":
+			if i > 0 {
+				sb.WriteString("---\n")
+			}
+			if i == 0 {
+				b, _ := json.Marshal(d.spec())
+				sb.Write(b)
+				sb.WriteString("\n")
+			} else {
+				b, _ := yaml.Marshal(d.spec())
+				sb.Write(b)
+			}
 		}
 	}
 	return []byte(sb.String())
@@ -562,7 +574,9 @@ func runCase(c Case) (ev.Info, error) {
 		want[k] = kit.Canon(o)
 	}
 	var results []result
-	formats := []string{"json-concat", "json-lines", "yaml"}
+	// "yaml-json-first": a YAML stream (documents separated by ---) whose first document is written in JSON
+	// (flow) style, as a hook does that prints its first operation with jq and the rest with a here-document
+	formats := []string{"json-concat", "json-lines", "yaml", "yaml-json-first"}
 	for _, f := range formats {
 		r, err := execute(c, f)
 		if err != nil {
@@ -620,7 +634,7 @@ func runCase(c Case) (ev.Info, error) {
 	return info, nil
 }
 
-const rule = "streams of 1-6 operation documents (three create variants with the object inline, as JSON string or as YAML string; three delete modes; MergePatch/JSONPatch inline or as string; JQPatch; subresource; ignoreMissingObject) over ConfigMaps and a CRD kind in 2 namespaces with a generated initial state; each stream rendered as concatenated JSON, indented JSON documents and ----separated YAML and executed on identical fake clusters: final states equal a reference model (RFC 7386 merge, add/replace/remove JSON patch, jq), error/no-error equals the reference, client actions identical across renderings, one primary API call per document; 1 in 4 streams has one invalid document at a generated position: rejected in every rendering, cluster unchanged. Non-trivial: >= 2 operations touch the same object, or an invalid stream."
+const rule = "streams of 1-6 operation documents (three create variants with the object inline, as JSON string or as YAML string; three delete modes; MergePatch/JSONPatch inline or as string; JQPatch; subresource; ignoreMissingObject) over ConfigMaps and a CRD kind in 2 namespaces with a generated initial state; each stream rendered as concatenated JSON, indented JSON documents, ----separated YAML and ----separated YAML whose first document is written in JSON style and executed on identical fake clusters: final states equal a reference model (RFC 7386 merge, add/replace/remove JSON patch, jq), error/no-error equals the reference, client actions identical across renderings, one primary API call per document; 1 in 4 streams has one invalid document at a generated position: rejected in every rendering, cluster unchanged. Non-trivial: >= 2 operations touch the same object, or an invalid stream."
 
 func TestPatch(t *testing.T) {
 	ev.Main(t, ev.Spec[Case]{Property: "C13", Part: "patch", Rule: rule, Gen: gen, Run: runCase})
